@@ -17,6 +17,9 @@
 (*   overwrite fitting MutFam overwrites the fixed MutName with an estimate              *)
 (*   stale     an inner dependence function is evaluated at the previous given           *)
 (*   vecfirst  a vectorised call uses the first element's given for every element        *)
+(*   bothornone  MutFam (two parameters) rejects a call that overrides exactly one of them  *)
+(*   constscalar  a vector given with only constant parameter values yields ONE result      *)
+(*   noneassigned  the constructor of MutFam stores an explicit f_<name> = None as the value  *)
 (*   falsy     fitting MutFam treats a parameter fixed at a zero value as not fixed       *)
 (*   wrap      fitting MutFam returns a fixed location reduced to the principal range     *)
 EXTENDS ParamRoutingOps, TLC, Json
@@ -39,15 +42,22 @@ Case(scen, f, E, m, ak, p, D, ch, sh, F, fm, d, sp, sn) ==
 
 Init ==
     /\ pc = "new" /\ used = <<>> /\ outcome = "none" /\ round = 0 /\ k = 1
-    /\ \E f \in Families :
+    /\ \E f \in Families \cup (IF Scen = "fit" THEN {"ScipyVonMises"} ELSE {}) :
          /\ par = [n \in Names(f) |-> <<"none", n>>]
-         /\ \/ /\ Scen = "override"
+         /\ \/ /\ Scen = "fit" /\ f = "ScipyVonMises"
+               /\ \E vm \in VmSubCases :
+                    c = Case("fit", f, {}, "cdf", "ndarray", "kw", {}, "plain", "ss", Range(vm[1]), "mle",
+                             "own", vm[2], "loc")
+            \/ /\ Scen = "fit" /\ f \in Families
+               /\ \E n \in Names(f) :        \* f_n = None given explicitly: nothing fixed
+                    c = Case("fit", f, {}, "cdf", "ndarray", "kw", {}, "plain", "ss", {}, "mle", "own", "none", n)
+            \/ /\ Scen = "override"
                /\ \E E \in SUBSET Names(f), m \in Methods, ak \in ArgKinds, p \in PassKinds :
                     c = Case("override", f, E, m, ak, p, {}, "plain", "ss", {}, "mle", "own", "regular", "none")
             \/ /\ Scen = "cond"
                /\ \E D \in Partitions(f), ch \in Chains, sh \in Shapes, m \in Methods :
                     c = Case("cond", f, {}, m, "ndarray", "kw", D, ch, sh, Names(f) \ D, "mle", "own", "regular", "none")
-            \/ /\ Scen = "fit"
+            \/ /\ Scen = "fit" /\ f \in Families
                /\ \/ \E F \in FixSets(f), fm \in FitMethods, d \in DataKinds :
                        c = Case("fit", f, {}, "cdf", "ndarray", "kw", {}, "plain", "ss", F, fm, d,
                                 "regular", "none")
@@ -59,14 +69,17 @@ Init ==
 NewDist ==
     /\ pc = "new"
     /\ par' = [n \in Names(c.fam) |->
-                 IF n \in c.F /\ ~(MutKind = "ctor" /\ MutFam = c.fam) THEN Fixed(n) ELSE Stored(n)]
+                 IF MutKind = "noneassigned" /\ MutFam = c.fam /\ c.special = "none" /\ n = c.sname
+                 THEN <<"None", n>>
+                 ELSE IF n \in c.F /\ ~(MutKind = "ctor" /\ MutFam = c.fam) THEN Fixed(n) ELSE Stored(n)]
     /\ pc' = "built"
     /\ UNCHANGED <<c, used, outcome, round, k>>
 
 (* Dist(S).method(x, E): _get_scipy_parameters takes the explicit value, else self.name *)
 CallExplicit ==
     /\ pc = "built" /\ c.scen = "override"
-    /\ LET oc == IF c.fam = "NormFit" /\ Cardinality(c.E) = 1 THEN "RuntimeError" ELSE "ok" IN
+    /\ LET oc == IF MutKind = "bothornone" /\ c.fam = MutFam /\ Cardinality(c.E) = 1
+                 THEN "RuntimeError" ELSE "ok" IN
          /\ outcome' = oc
          /\ used' = IF oc = "ok"
                     THEN << [n \in Names(c.fam) |->
@@ -86,14 +99,18 @@ CondCall ==
     /\ pc = "built" /\ c.scen = "cond" /\ k <= NGiven
     /\ LET gv == GivenOf(k)
            SeenBy(i, lev) ==
-               IF lev > 1 /\ MutKind = "stale" /\ k > 1 THEN gv[i] - 1
+               IF c.chain = "const" THEN 0
+               ELSE IF lev > 1 /\ MutKind = "stale" /\ k > 1 THEN gv[i] - 1
                ELSE IF MutKind = "vecfirst" THEN gv[1] ELSE gv[i]
+           (* one element per conditioning value; "constscalar": when every parameter value is  *)
+           (* constant in given (const chain) the code produces ONE element for a vector given  *)
+           NEl == IF MutKind = "constscalar" /\ c.chain = "const" THEN 1 ELSE Len(gv)
            Val(n, i) ==
                IF n \in c.D
                THEN IF MutKind = "drop" /\ Mut(c.fam, n) THEN Stored(n)
                     ELSE ApplyTok(n, [lev \in 1..(DepthOf(c.fam, c.D, c.chain, n) + 1) |-> SeenBy(i, lev)])
                ELSE par[n]
-       IN used' = Append(used, [i \in 1..Len(gv) |-> [n \in Names(c.fam) |-> Val(n, i)]])
+       IN used' = Append(used, [i \in 1..NEl |-> [n \in Names(c.fam) |-> Val(n, i)]])
     /\ k' = k + 1
     /\ pc' = IF k = NGiven THEN "done" ELSE "built"
     /\ UNCHANGED <<c, par, outcome, round>>
@@ -144,11 +161,13 @@ CondEqualsTemplateAtValues ==
 VectorisedEqualsPointwise ==
     c.scen = "cond" =>
       \A j \in 1..Len(used) : \A i \in 1..Len(used[j]) : \A n \in c.D :
-         used[j][i][n][1] = "dep" => used[j][i][n][3] = GivenOf(j)[i]
+         used[j][i][n][1] = "dep" => used[j][i][n][3] = Seen(c.chain, GivenOf(j)[i])
+(* one result element (sample row) per conditioning value, also when no parameter varies *)
+OneResultPerGiven == c.scen = "cond" => \A j \in 1..Len(used) : Len(used[j]) = Len(GivenOf(j))
 ChainedSameGiven ==
     c.scen = "cond" =>
       \A j \in 1..Len(used) : \A i \in 1..Len(used[j]) : \A n \in c.D :
-         used[j][i][n][1] = "dep" => GivensIn(used[j][i][n]) = {GivenOf(j)[i]}
+         used[j][i][n][1] = "dep" => GivensIn(used[j][i][n]) = {Seen(c.chain, GivenOf(j)[i])}
 (* C11, conditional part *)
 FixedSameForAllGiven ==
     c.scen = "cond" =>
